@@ -37,7 +37,10 @@ RULE = ("Hypothesis draws a mixture tree: 1..6 parts, each a compound derivation
         "rounding floor of '100 - sum'), zero-quantity parts absent, density = total mass / total volume or unknown, "
         "total_mass / thickness = the stated amount; a volume quantity of a material of unknown density and "
         "percentages above 100 must raise. API cases also use keywords, Formula-or-string components, private tables "
-        "and a rescaled formula unit. non-trivial = >= 3 parts at one level, or quantities spanning >= 4 decades, or a "
+        "and a rescaled formula unit; series cases make 2..6 calls (both functions, zero quantities, density=/"
+        "natural_density=/name=) on the SAME Formula objects and require after every call that no component changed "
+        "(structure, density, name), that the result is a new object, and that the result agrees with the reference. "
+        "non-trivial = >= 3 parts at one level, or quantities spanning >= 4 decades, or a "
         "nested / repeated group (a component that is itself a mixture); distinct by rendered string (+ call shape).")
 ASSUMPTIONS = [
     "atom.mass and atom.density of the table atoms are trusted (C06); Formula.mass/.density are not used by the oracle",
@@ -824,6 +827,136 @@ def task_api(ctx, n, depth):
     ctx.search("api", api_strategy(depth), check_api, n)
 
 
+# ----------------------------------------------------------------------
+# a series of calls that share their component objects
+def snapshot(f):
+    return (f.structure, f.density, f.name)
+
+
+def check_series(ctx, value):
+    """Several mix_by_weight / mix_by_volume calls in one case, all given the
+    SAME Formula objects (a concentration series incl. zero quantities, with the
+    density=/natural_density=/name= keywords).  A call must not modify its
+    components nor hand one of them back as its result, and every result of
+    the series must agree with the reference."""
+    E = env()
+    pt = E["pt"]
+    which = value["table"]
+    T = E["tables"][which]
+    parts = value["parts"]
+    case = dict(value, kind="series")
+    strings = [render_part(p) for p in parts]
+    ref0 = Ref(E, T)
+    ev = [ref0.part(p) for p in parts]
+    if ref0.ambiguous or ref0.errors:
+        ctx.count("skipped:series component cannot be built")
+        return
+    try:
+        comps = [build_part(E, T, p) for p in parts]
+    except CannotBuild:
+        ctx.count("skipped:series component cannot be built")
+        return
+    before = [snapshot(c) for c in comps]
+    calls = [c for c in value["calls"]]
+    nested = any(p[0] == "g" for p in parts)
+    ctx.case(("series", which, tuple(strings), repr(calls)), nontrivial=(len(calls) >= 2 and len(parts) >= 2),
+             sample={"components": strings, "calls": calls, "table": which},
+             cls=["form:api-series", "table:" + which, "series:calls:%d" % len(calls), "parts:%d" % len(parts)]
+             + (["nested"] if nested else []))
+    tol = 1e-11 + ref0.slack
+    for step, call in enumerate(calls):
+        by = call["by"]
+        quant = [float(q) for q in call["q"][:len(parts)]]
+        quant += [0.0] * (len(parts) - len(quant))
+        ref = Ref(E, T)
+        trip = [(c, r, Fraction(q)) for (c, r), q in zip(ev, quant)]
+        comp, rho = (ref._mixw if by == "w" else ref._mixv)(trip)
+        kw = dict(call["kw"])
+        if not comp:
+            kw.pop("density", None)
+            kw.pop("natural_density", None)
+        positive = sum(1 for q in quant if q > 0)
+        ctx.count("series:%s" % ("one-component" if positive == 1 else "empty" if positive == 0 else "several-components"))
+        for k in sorted(kw):
+            ctx.count("series:kw:" + k)
+        fn = pt.mix_by_weight if by == "w" else pt.mix_by_volume
+        args = []
+        for c, q in zip(comps, quant):
+            args += [c, q]
+        tag = "api-series"
+        where = "call %d of the series, mix_by_%s(%s, %s)" % (
+            step + 1, "weight" if by == "w" else "volume",
+            ", ".join("%s, %r" % (x, q) for x, q in zip(strings, quant)), ", ".join("%s=%r" % kv for kv in sorted(kw.items())))
+        f = None
+        try:
+            f = fn(*args, **kw)
+        except Exception as e:  # noqa
+            fr = lib_frame(e.__traceback__)
+            if fr is None:
+                raise
+            if not (ref.errors and isinstance(e, ValueError)):
+                if ref.errors:
+                    raise Violation("c11:%s:%s" % (ref.errors[0], type(e).__name__),
+                                    "%s: documented ValueError, got %s: %s" % (where, type(e).__name__, e), case)
+                raise Violation("c11:%s:%s:%s" % (tag, type(e).__name__, fr), "%s raised %s: %s" % (where, type(e).__name__, str(e)[:200]), case)
+        # the components belong to the caller
+        for k, c in enumerate(comps):
+            if f is c:
+                raise Violation("c11:api:result-is-component", "%s returned its own component %r (not a new formula)"
+                                % (where, strings[k]), case)
+            if snapshot(c) != before[k]:
+                raise Violation("c11:api:component-modified", "%s changed component %r from (density, name) = %r to %r%s"
+                                % (where, strings[k], before[k][1:], snapshot(c)[1:],
+                                   "" if c.structure == before[k][0] else " and its structure"), case)
+        if f is None:
+            continue
+        if ref.errors:
+            raise Violation("c11:%s:accepted" % ref.errors[0], "%s must raise ValueError but gave %r" % (where, f.structure), case)
+        if ref.ambiguous:
+            ctx.count("series:step-unjudged:" + ref.ambiguous[0])
+            continue
+        want_rho = rho
+        if comp:
+            if "density" in kw:
+                want_rho = Fraction(kw["density"])
+            elif "natural_density" in kw:
+                want_rho = Fraction(kw["natural_density"]) / rc.natural_ratio(T, comp, E["emass"])
+        compare(f, comp, want_rho, T, tol, tag, dict(case, failing_call=step))
+        if "name" in kw and f.name != kw["name"]:
+            raise Violation("c11:%s:name" % tag, "%s: name %r expected %r" % (where, f.name, kw["name"]), case)
+
+
+def series_strategy(depth):
+    zero = st.sampled_from(["0", "0.0"])
+    e = st.tuples(st.integers(1, 9999), st.integers(-6, 3)).map(lambda t: "%de%d" % t)
+    q = st.one_of(zero, zero, st.integers(1, 100).map(str), st.integers(1, 100).map(str), e)
+    dens = st.one_of(st.floats(0.01, 30), st.sampled_from([0.9982, 1.0707, 2.0]))
+    kw = st.one_of(
+        st.just({}),
+        st.fixed_dictionaries({"density": dens}),
+        st.fixed_dictionaries({"natural_density": dens}),
+        st.fixed_dictionaries({"name": st.sampled_from(["brine 0%", "mix", "x"])}),
+        st.fixed_dictionaries({"name": st.just("alloy"), "density": dens}),
+        st.fixed_dictionaries({"name": st.just("blend"), "natural_density": dens}))
+    call = st.fixed_dictionaries({"by": st.sampled_from(["w", "v"]), "q": st.lists(q, min_size=4, max_size=4), "kw": kw})
+
+    def cut(d):
+        n = len(d["parts"])
+        for c in d["calls"]:
+            c["q"] = c["q"][:n]
+        return d
+    return short_repr(st.fixed_dictionaries({
+        "parts": st.lists(part(True, depth, 3), min_size=1, max_size=4),
+        "calls": st.lists(call, min_size=2, max_size=6),
+        "table": st.sampled_from(["public", "public", "private"]),
+    }).map(cut), "mixture_series_%d" % depth)
+
+
+def task_series(ctx, n, depth):
+    env()
+    ctx.search("series", series_strategy(depth), check_series, n)
+
+
 def _tree(atoms, d=None, lead=None):
     return {"g": [["i", lead, [["a", [sym, iso, ch], False, cnt] for sym, iso, ch, cnt in atoms]]], "s": [], "d": d}
 
@@ -861,20 +994,22 @@ def task_unit_sweep(ctx):
 
 def tasks(tier):
     if tier == "quick":
-        return [("strings-a", task_strings, dict(n=500, depth=1, width=6)),
-                ("strings-b", task_strings, dict(n=500, depth=2, width=4)),
-                ("strings-c", task_strings, dict(n=500, depth=1, width=4)),
-                ("strings-d", task_strings, dict(n=500, depth=0, width=6)),
+        return [("strings-a", task_strings, dict(n=400, depth=1, width=6)),
+                ("strings-b", task_strings, dict(n=400, depth=2, width=4)),
+                ("strings-c", task_strings, dict(n=400, depth=1, width=4)),
+                ("strings-d", task_strings, dict(n=400, depth=0, width=6)),
                 ("unit-sweep", task_unit_sweep, dict()),
-                ("api-a", task_api, dict(n=500, depth=1)),
-                ("api-b", task_api, dict(n=500, depth=2)),
-                ("api-c", task_api, dict(n=500, depth=0)),
-                ("api-d", task_api, dict(n=500, depth=1))]
+                ("api-a", task_api, dict(n=400, depth=1)),
+                ("api-b", task_api, dict(n=400, depth=2)),
+                ("api-c", task_api, dict(n=400, depth=0)),
+                ("api-d", task_api, dict(n=400, depth=1)),
+                ("series", task_series, dict(n=400, depth=1))]
     out = []
     for k in range(8):
         out.append(("strings-%d" % k, task_strings, dict(n=6000, depth=1 + k % 3, width=6 if k % 3 == 0 else 4)))
-    for k in range(7):
+    for k in range(6):
         out.append(("api-%d" % k, task_api, dict(n=6000, depth=k % 3)))
+    out.append(("series", task_series, dict(n=6000, depth=1)))
     out.append(("unit-sweep", task_unit_sweep, dict()))
     return out
 
@@ -882,5 +1017,7 @@ def tasks(tier):
 def replay(ctx, case):
     if case["kind"] == "string":
         check_string(ctx, case)
+    elif case["kind"] == "series":
+        check_series(ctx, case)
     else:
         check_api(ctx, case)
